@@ -134,3 +134,52 @@ Theorem bzip2_code_lengths_are_complete_and_at_most_20_bits : forall cnts,
               map fst out = combine (iota n) ls.
 Proof. exact lengths_of_counts_correct. Qed.
 Print Assumptions bzip2_code_lengths_are_complete_and_at_most_20_bits.
+
+(* ---- the whole round trip (Bzip2/BitIO, HuffSels, HuffLens, Huffman, StreamBits,
+   BlockRoundTrip, StreamRoundTrip) -------------------------------------------------------- *)
+From V Require Import Bzip2.BitIO Bzip2.Huffman Bzip2.BlockRoundTrip Bzip2.StreamRoundTrip.
+
+(* Stage 4, the key lemma: libbzip2's limit/base/perm decoding tables decode the canonical
+   code the Writer assigns, for every length vector with lengths in 1..20 and Kraft sum <= 1
+   (completeness is not needed), at any position of any stream *)
+Theorem bzip2_decoding_tables_invert_canonical_code : forall lens s,
+  lens_ok lens -> s < N.of_nat (length lens) ->
+  reads (read_symbol (mk_table lens)) (code_bits lens s) s.
+Proof. exact read_symbol_correct. Qed.
+Print Assumptions bzip2_decoding_tables_invert_canonical_code.
+
+(* Stage 5, one block: what encode_block writes after the block magic is read back by
+   decode_block, which returns the stored CRC, consumes exactly these bits and outputs the
+   RLE1 expansion *)
+Theorem bzip2_block_roundtrip : forall depth level block crcreg consumed,
+  (5 <= depth)%nat -> 1 <= level <= 9 ->
+  block <> [] -> bytes_ok block -> N.of_nat (length block) <= level * blockSize ->
+  crcreg < 2 ^ 32 ->
+  (forall s, run (rle1_emit block 0 0 crc_init) s = Done crcreg (push_out s consumed)) ->
+  forall rest pos out len,
+    run (decode_block depth level) (mkAst (block_bits block (crc_final crcreg) ++ rest) pos out len) =
+    Done (crc_final crcreg)
+         (push_out (mkAst rest (pos + N.of_nat (length (block_bits block (crc_final crcreg)))) out len)
+                   consumed).
+Proof. exact decode_block_correct. Qed.
+Print Assumptions bzip2_block_roundtrip.
+
+(* C04: bzip2.Writer is lossless.  For EVERY input and every level 1..9 - no size bound -
+   the decoder model accepts the encoder model's output, returns the input and consumes
+   every byte of the encoding *)
+Theorem bzip2_writer_is_lossless : forall level data,
+  1 <= level <= 9 -> (forall b, In b data -> b < 256) ->
+  bz_err (bzip2_decode (bzip2_encode level data)) = None /\
+  bz_out (bzip2_decode (bzip2_encode level data)) = data /\
+  bz_used (bzip2_decode (bzip2_encode level data)) = N.of_nat (length (bzip2_encode level data)).
+Proof. exact bzip2_roundtrip. Qed.
+Print Assumptions bzip2_writer_is_lossless.
+
+(* multi-stream: any non-empty sequence of encodings, concatenated, decodes to the
+   concatenation of the inputs *)
+Theorem bzip2_concatenated_streams_roundtrip : forall inputs,
+  inputs <> [] -> inputs_ok inputs ->
+  bzip2_decode (encode_all inputs) =
+  mkBZ None (concat (map snd inputs)) (N.of_nat (length (encode_all inputs))).
+Proof. exact bzip2_roundtrip_multi. Qed.
+Print Assumptions bzip2_concatenated_streams_roundtrip.
